@@ -395,6 +395,27 @@ fn main() {
                 }
                 json!({"ok": true})
             }),
+            "reparse" => guard(|| {
+                // write sentence `from` in the given format and parse the text into sentence `to`
+                let fmt = s(&op["fmt"]);
+                let mut buf = String::new();
+                {
+                    let src = sents.get(&s(&op["from"])).expect("sentence id");
+                    if fmt == "tokenized" {
+                        src.write_tokenized_text(&mut buf);
+                    } else {
+                        src.write_partial_annotation_text(&mut buf);
+                    }
+                }
+                let r = if fmt == "tokenized" { Sentence::from_tokenized(&buf) } else { Sentence::from_partial_annotation(&buf) };
+                match r {
+                    Ok(x) => {
+                        sents.insert(s(&op["to"]), x);
+                        json!({"ok": true, "text": buf})
+                    }
+                    Err(e) => json!({"err": format!("{e}"), "text": buf}),
+                }
+            }),
             "fullwidth" => guard(|| json!({"ok": true, "out": KyteaFullwidthFilter.filter(s(&op["text"]))})),
             "observe" => guard(|| observe(sents.get(&s(&op["s"])).expect("sentence id"), op["cands"].as_bool().unwrap_or(false))),
             "model_roundtrip" => guard(|| {
